@@ -83,33 +83,38 @@ def rule_c16(prog, rep):
     f_hd = prog.need_func('qhex_decode')
 
     # ---- TB1
-    t = _find_table(local_tables(f_ue), 256)
-    rep.broken_if(t is None, 'qurl_encode: the 256-entry classification table was not found')
-    if t:
-        name, (decl, vals) = t
+    lit, how, line = url_literal_set(prog, f_ue)
+    rep.broken_if(lit is None, 'qurl_encode: %s' % how)
+    rep.notes['url_literal_predicate'] = how
+    if lit is not None:
         bad = []
         for c in range(256):
             rep.instance('TB1')
-            v = vals[c] & 0xFF
-            ok = v in (0, c)
-            if ok and v != 0:
-                ch = c
-                is_alnum = (48 <= ch <= 57) or (65 <= ch <= 90) or (97 <= ch <= 122)
-                ok = (is_alnum or ch in URL_ALLOWED_PUNCT) and ch not in URL_FORBIDDEN and 0x20 < ch < 0x7F
-            rep.oblige('TB1', ok, {'table': name, 'index': c, 'value': v} if c in (0x20, 0x25, 0x41) else None)
+            ok = True
+            if c in lit:
+                is_alnum = (48 <= c <= 57) or (65 <= c <= 90) or (97 <= c <= 122)
+                ok = (is_alnum or c in URL_ALLOWED_PUNCT) and c not in URL_FORBIDDEN and 0x20 < c < 0x7F
+            rep.oblige('TB1', ok, {'byte': c, 'emitted_literally': c in lit} if c in (0x00, 0x20, 0x25, 0x41) else None)
             if not ok:
                 bad.append(c)
         for c in bad[:4]:
-            rep.violation('TB1', f_ue, decl.get('_line'), '%s[0x%02x]' % (name, c),
-                          '%s[0x%02x] = %r: byte 0x%02x would be emitted literally but is not URL-safe (or the entry is '
-                          'not the byte itself)' % (name, c, vals[c], c))
-        # alphanumerics must stay literal? (round trip does not need it) - not required.
-        # every other byte as %hh: the function stores a literal '%'
+            rep.violation('TB1', f_ue, line, 'literal:0x%02x' % c,
+                          'byte 0x%02x is copied to the output unescaped (%s) but is not URL-safe: NUL/control/space/non-ASCII or one '
+                          'of %% + & = ? # " < >' % (c, how))
+        t = _find_table(local_tables(f_ue), 256)
+        if t:
+            name, (decl, vals) = t
+            for c in range(256):
+                if (vals[c] & 0xFF) not in (0, c):
+                    rep.instance('TB1')
+                    rep.oblige('TB1', False)
+                    rep.violation('TB1', f_ue, decl.get('_line'), '%s[0x%02x]' % (name, c),
+                                  '%s[0x%02x] = %r is neither 0 nor the byte itself' % (name, c, vals[c]))
         pct = [x for x in walk(f_ue.body) if x.get('kind') == 'CharacterLiteral' and x.get('value') == 37]
         rep.instance('TB1')
         rep.oblige('TB1', bool(pct), {'percent_literal_stores': len(pct)})
         if not pct:
-            rep.violation('TB1', f_ue, f_ue.line, 'percent', 'no \'%\' literal is emitted for bytes that must be encoded')
+            rep.violation('TB1', f_ue, f_ue.line, 'percent', "no '%' literal is emitted for bytes that must be encoded")
 
     # ---- TB2 / TB3
     tw = _find_table(local_tables(f_be), 64)
@@ -289,3 +294,279 @@ def rule_c16(prog, rep):
     if not ok:
         rep.violation('TB7', fx, fx.line, 'casefold', '_q_x2c() must fold both hex digits to upper case (& 0xdf) before '
                                                       'subtracting \'A\': lowercase %hh escapes (what qurl_encode emits) would mis-decode')
+
+
+# --------------------------------------------------------------------------------------
+# predicate evaluation over the byte domain (used when the literal set is a table lookup or a ctype/strchr predicate)
+
+CTYPE_MASK = {
+    '_ISalnum': lambda c: (48 <= c <= 57) or (65 <= c <= 90) or (97 <= c <= 122),
+    '_ISalpha': lambda c: (65 <= c <= 90) or (97 <= c <= 122),
+    '_ISdigit': lambda c: 48 <= c <= 57,
+    '_ISxdigit': lambda c: (48 <= c <= 57) or (65 <= c <= 70) or (97 <= c <= 102),
+    '_ISupper': lambda c: 65 <= c <= 90,
+    '_ISlower': lambda c: 97 <= c <= 122,
+    '_ISspace': lambda c: c in (9, 10, 11, 12, 13, 32),
+    '_ISprint': lambda c: 32 <= c <= 126,
+    '_ISgraph': lambda c: 33 <= c <= 126,
+    '_ISpunct': lambda c: (33 <= c <= 47) or (58 <= c <= 64) or (91 <= c <= 96) or (123 <= c <= 126),
+    '_IScntrl': lambda c: c < 32 or c == 127,
+    '_ISblank': lambda c: c in (9, 32),
+}
+CTYPE_FN = {'isalnum': '_ISalnum', 'isalpha': '_ISalpha', 'isdigit': '_ISdigit', 'isxdigit': '_ISxdigit',
+            'isupper': '_ISupper', 'islower': '_ISlower', 'isspace': '_ISspace', 'isprint': '_ISprint',
+            'isgraph': '_ISgraph', 'ispunct': '_ISpunct', 'iscntrl': '_IScntrl', 'isblank': '_ISblank'}
+
+
+def _string_of(prog, f, e):
+    """bytes of a string literal or of a const char array variable initialised from one"""
+    s = strip(e)
+    if s.get('kind') == 'StringLiteral':
+        v = s.get('value', '""')
+        try:
+            import ast as _ast
+            return _ast.literal_eval('b' + v) if v.startswith('"') else None
+        except Exception:
+            return None
+    if s.get('kind') == 'DeclRefExpr':
+        nm = (s.get('_ref') or ('', '', None))[2] if len(s.get('_ref') or ()) > 2 else None
+        for x in walk(f.body):
+            if x.get('kind') == 'VarDecl' and x.get('name') == nm:
+                init = var_init(x)
+                if init is not None:
+                    return _string_of(prog, f, init)
+        g = f.unit.globals.get(nm)
+        if g is not None and var_init(g) is not None:
+            return _string_of(prog, f, var_init(g))
+    return None
+
+
+def byte_pred(prog, f, e, env, tables):
+    """Evaluate predicate/integer expression e for a concrete byte environment; None if not evaluable."""
+    s = strip(e)
+    v = int_value(s)
+    if v is not None and not isinstance(v, str):
+        return v
+    k = s.get('kind')
+    if k == 'DeclRefExpr':
+        r = s.get('_ref') or ('',)
+        nm = r[2] if len(r) > 2 else None
+        return env.get(nm)
+    if k == 'ArraySubscriptExpr':
+        b = strip(children(s)[0])
+        idx = byte_pred(prog, f, children(s)[1], env, tables)
+        if idx is None:
+            return None
+        if b.get('kind') == 'DeclRefExpr':
+            nm = (b.get('_ref') or ('', '', None))[2]
+            if nm in tables and 0 <= idx < len(tables[nm]):
+                return tables[nm][idx]
+            st = _string_of(prog, f, b)
+            if st is not None and 0 <= idx <= len(st):
+                return (st + b'\0')[idx]
+        # glibc ctype macro: (*__ctype_b_loc())[(int)(c)] -> class bits, modelled through the mask it is and-ed with
+        if any(x.get('kind') == 'CallExpr' and prog.callee_name(x) == '__ctype_b_loc' for x in walk(b)):
+            return ('ctype', idx)
+        return None
+    if k == 'UnaryOperator':
+        a = byte_pred(prog, f, children(s)[0], env, tables)
+        if a is None or isinstance(a, tuple):
+            return None
+        return {'!': int(not a), '-': -a, '~': ~a, '+': a}.get(s.get('opcode'))
+    if k == 'BinaryOperator':
+        op = s.get('opcode')
+        a = byte_pred(prog, f, children(s)[0], env, tables)
+        if op == '&&':
+            if a is None:
+                return None
+            if not a:
+                return 0
+            b = byte_pred(prog, f, children(s)[1], env, tables)
+            return None if b is None else int(bool(b))
+        if op == '||':
+            if a is None:
+                return None
+            if a and not isinstance(a, tuple):
+                return 1
+            b = byte_pred(prog, f, children(s)[1], env, tables)
+            return None if b is None else int(bool(b))
+        b = byte_pred(prog, f, children(s)[1], env, tables)
+        if op == '&' and isinstance(a, tuple) and a[0] == 'ctype':
+            for x in walk(children(s)[1]):
+                if x.get('kind') == 'DeclRefExpr' and (x.get('_ref') or ('',))[0] == 'enum' and x['_ref'][1] in CTYPE_MASK:
+                    return int(CTYPE_MASK[x['_ref'][1]](a[1] & 0xFF))
+            return None
+        if a is None or b is None or isinstance(a, tuple) or isinstance(b, tuple):
+            return None
+        try:
+            return {'+': a + b, '-': a - b, '*': a * b, '&': a & b, '|': a | b, '^': a ^ b, '<<': a << b, '>>': a >> b,
+                    '==': int(a == b), '!=': int(a != b), '<': int(a < b), '>': int(a > b), '<=': int(a <= b),
+                    '>=': int(a >= b)}.get(op)
+        except (ValueError, OverflowError):
+            return None
+    if k == 'ConditionalOperator':
+        c = byte_pred(prog, f, children(s)[0], env, tables)
+        if c is None:
+            return None
+        return byte_pred(prog, f, children(s)[1 if c else 2], env, tables)
+    if k == 'CallExpr':
+        nm = prog.callee_name(s)
+        args = children(s)[1:]
+        if nm in CTYPE_FN and args:
+            c = byte_pred(prog, f, args[0], env, tables)
+            return None if c is None else int(CTYPE_MASK[CTYPE_FN[nm]](c & 0xFF))
+        if nm in ('strchr', 'memchr', 'index') and len(args) >= 2:
+            st = _string_of(prog, f, args[0])
+            c = byte_pred(prog, f, args[1], env, tables)
+            if st is None or c is None:
+                return None
+            hay = st + (b'\0' if nm != 'memchr' else b'')
+            return 1 if (c & 0xFF) in hay else 0       # non-NULL / NULL
+        return None
+    return None
+
+
+def url_literal_set(prog, f):
+    """The set of byte values qurl_encode copies through unchanged: the condition of the branch whose one arm stores
+    the byte itself and whose other arm stores '%' is evaluated for all 256 byte values.
+    Returns (set or None, description, line)."""
+    tables = {name: vals for name, (decl, vals) in local_tables(f).items()}
+    for x in walk(f.body):
+        if x.get('kind') != 'IfStmt' or len(children(x)) < 3:
+            continue
+        then, els = children(x)[1], children(x)[2]
+        pct_else = any(y.get('kind') == 'CharacterLiteral' and y.get('value') == 37 for y in walk(els))
+        pct_then = any(y.get('kind') == 'CharacterLiteral' and y.get('value') == 37 for y in walk(then))
+        if pct_else == pct_then:
+            continue
+        cond = children(x)[0]
+        # the byte variable: an unsigned char local assigned from the input cursor
+        names = [y.get('_ref')[2] for y in walk(cond) if y.get('kind') == 'DeclRefExpr' and (y.get('_ref') or ('',))[0] == 'local'
+                 and y['_ref'][2] not in tables]
+        names = [n for n in names if n]
+        if not names:
+            continue
+        var = names[0]
+        lit = set()
+        for c in range(256):
+            v = byte_pred(prog, f, cond, {var: c}, tables)
+            if v is None:
+                return None, 'condition %s cannot be evaluated for byte 0x%02x' % (canon(cond)[:60], c), x.get('_line')
+            truth = bool(v)
+            if truth == pct_else:      # condition true -> then-arm = literal copy when '%' is in the else arm
+                lit.add(c)
+        return lit, canon(cond)[:80], x.get('_line')
+    return None, 'the literal/escape branch of the encoder was not found', f.line
+
+
+def rule_query_split(prog, rep, rid='TB9'):
+    """qparse_queries: a string is URL-decoded only after it has been split off (both separators are
+    looked for in the still-encoded text), and nothing that was decoded is split again."""
+    rep.rule(rid, 'the query parser splits on the separators before URL-decoding: decoded text is never handed to the splitter')
+    f = prog.need_func('qparse_queries')
+    from .own import propagate, node_events
+    bad = []
+
+    def transfer(n, st):
+        s = set(st)
+        if not isinstance(n.ast, dict) or n.kind == 'macro':
+            return st
+        for ev in node_events(n):
+            if ev[0] == 'call':
+                nm = prog.callee_name(ev[1])
+                args = children(ev[1])[1:]
+                if nm == 'qurl_decode' and args:
+                    p = access_path(args[0])
+                    if p:
+                        s.add(('dec', p))
+                elif nm == '_q_makeword' and args:
+                    p = access_path(args[0])
+                    if p and ('dec', p) in s:
+                        bad.append((ev[1].get('_line'), p))
+            elif ev[0] in ('assign', 'decl'):
+                p = access_path(ev[1]) if ev[0] == 'assign' else ev[1].get('name')
+                if p:
+                    s.discard(('dec', p))
+        return frozenset(s)
+    propagate(f, frozenset(), transfer)
+    decs = [x for x in walk(f.body) if x.get('kind') == 'CallExpr' and prog.callee_name(x) == 'qurl_decode']
+    splits = [x for x in walk(f.body) if x.get('kind') == 'CallExpr' and prog.callee_name(x) == '_q_makeword']
+    rep.instance(rid, len(splits))
+    rep.broken_if(len(splits) < 2, 'qparse_queries: expected two splits, found %d' % len(splits))
+    for x in splits:
+        line = x.get('_line')
+        hit = [b for b in bad if b[0] == line]
+        rep.oblige(rid, not hit, {'split': canon(x)[:60], 'line': line})
+        if hit:
+            rep.violation(rid, f, line, 'split-after-decode:%s' % hit[0][1],
+                          '%s is URL-decoded before it is split at line %s: an encoded separator inside a name or value '
+                          '(%%3d, %%26) now splits the pair' % (hit[0][1], line))
+
+
+def rule_b64_staging(prog, rep, rid='TB8'):
+    """qbase64_encode: the small staging buffer read when a group is emitted holds only bytes of that group
+    or zeros.  Elements are `clean` after the zero initialiser, after memset(buf, 0, ..) and after a store
+    through a constant index; once a group has been emitted and the loop goes round without re-zeroing,
+    every element is stale (a store through a computed index refreshes one unknown element only)."""
+    from .own import propagate, node_events
+    rep.rule(rid, 'the Base64 staging buffer holds only bytes of the current group or zeros when a group is emitted (pad bits are zero)')
+    f = prog.need_func('qbase64_encode')
+    bufs = [x for x in walk(f.body) if x.get('kind') == 'VarDecl' and array_len_(qtype(x)) in (3, 4)]
+    rep.broken_if(not bufs, 'qbase64_encode: staging array not found')
+    if not bufs:
+        return
+    B = bufs[0].get('name')
+    N = array_len_(qtype(bufs[0]))
+    bad = []
+
+    def is_zeroing(ev):
+        if ev[0] == 'call' and prog.callee_name(ev[1]) == 'memset':
+            a = children(ev[1])[1:]
+            return len(a) >= 2 and access_path(a[0]) == B and int_value(a[1]) == 0
+        return False
+
+    def transfer(n, st):
+        s = set(st)
+        if n.kind == 'join' and n.info and n.info[0] == 'loophead' and ('emitted',) in s:
+            s = set()                                   # next group: nothing is known to be clean any more
+        if not isinstance(n.ast, dict) or n.kind == 'macro':
+            return frozenset(s)
+        if n.ast.get('kind') == 'VarDecl' and n.ast.get('name') == B:
+            return frozenset(('clean', i) for i in range(N))
+        # reads while emitting (stores through the output cursor)
+        for x in walk(n.ast):
+            if x.get('kind') == 'BinaryOperator' and x.get('opcode') == '=':
+                l = strip(children(x)[0])
+                if l.get('kind') == 'UnaryOperator' and l.get('opcode') == '*':
+                    reads = [y for y in walk(children(x)[1]) if y.get('kind') == 'ArraySubscriptExpr'
+                             and access_path(children(y)[0]) == B]
+                    for y in reads:
+                        i = int_value(children(y)[1])
+                        if i is not None and not isinstance(i, str) and ('clean', i) not in s:
+                            bad.append((y.get('_line'), i))
+                    if reads:
+                        s.add(('emitted',))
+        for ev in node_events(n):
+            if is_zeroing(ev):
+                s = set(('clean', i) for i in range(N))
+            elif ev[0] == 'assign':
+                l = strip(ev[1])
+                if l.get('kind') == 'ArraySubscriptExpr' and access_path(children(l)[0]) == B:
+                    i = int_value(children(l)[1])
+                    if i is not None and not isinstance(i, str):
+                        s.add(('clean', i))
+        return frozenset(s)
+
+    propagate(f, frozenset(), transfer)
+    rep.instance(rid)
+    seen = sorted(set(bad))
+    rep.oblige(rid, not seen, {'staging_buffer': B, 'size': N})
+    if seen:
+        rep.violation(rid, f, seen[0][0], 'stale:%s' % B,
+                      '%s[%d] is read when a group is emitted although it may still hold a byte of the previous group (the buffer is '
+                      'not re-zeroed between groups): the pad bits of a short final group are not zero' % (B, seen[0][1]))
+
+
+def array_len_(t):
+    from .expr import array_len
+    return array_len(t)
